@@ -222,6 +222,8 @@ def run(ctx):
                     break
     ctx.cov["disagreements_checked"] = len(runs)
     replay_findings(ctx)
+    from vlib import regress
+    regress.wide_layouts(ctx, {"C20"})          # the shape-agnostic search step (DESIGN.md 12.8)
     ctx.cov["rule"] = ("7 layouts of 2-4 schema files (three packages with references through sub- and parent directories and a YAML file; the same plus an unrelated file; only "
                        "the top file on the command line; two packages whose import paths end in the same element; one package in two files; no mappings; a diamond of four "
                        "files; two unrelated files using the same local reference text for different definitions; two different files carrying the same id, with and without a third package referring into one of them); every top-level file also alone; the root type and the definitions of every file given on the command line are declared in the file its id maps to; every argument order (at most 24; every fourth in the quick tier beyond 6); observables: files written, package clauses, type names per package, "
